@@ -68,8 +68,12 @@ class Const:
     _instances: MutableMapping[Any, Const] = weakref.WeakValueDictionary()
 
     def __new__(cls, const: Any) -> Const:
+        # Equal values of different types (1, True, 1.0) or with different representations
+        # (0.0, -0.0) must not share one instance: __init__ would overwrite the value
+        # seen by all blocks connected to the shared instance.
+        key = (type(const), const, repr(const))
         try:
-            return cls._instances[const]
+            return cls._instances[key]
             # __init__ will be invoked anyway
         except KeyError:
             hashable = True
@@ -77,7 +81,7 @@ class Const:
             hashable = False
         new = super().__new__(cls)
         if hashable:
-            cls._instances[const] = new
+            cls._instances[key] = new
         return new
 
     def __init__(self, const: Any) -> None:
